@@ -18,6 +18,16 @@ def load_all():
         name = os.path.basename(path)[:-3]
         if name != "__init__":
             importlib.import_module("contracts." + name)
+    # contract files under development outside /verif/contracts (PYVC_EXTRA=<file>[:<file>...]) - so that an unfinished file never breaks
+    # the loading of the registered ones; registered contracts are only those in /verif/contracts
+    for path in filter(None, os.environ.get("PYVC_EXTRA", "").split(os.pathsep)):
+        import importlib.util
+        name = "contracts." + os.path.basename(path)[:-3]
+        if name not in sys.modules:
+            spec = importlib.util.spec_from_file_location(name, path)
+            mod = importlib.util.module_from_spec(spec)
+            sys.modules[name] = mod
+            spec.loader.exec_module(mod)
     from . import contract as _C
     _C.apply_bounded_registry()
 
